@@ -139,9 +139,14 @@ def check_cases(ctx, cases):
                 except UnicodeEncodeError:
                     pass
                 # ignoring empty directories == the tree without (recursively) empty directories, by git's rules
-                d4 = Directory.from_disk(path=root, path_filter=from_disk.ignore_empty_directories)
+                # (through the same spelling of the path: relative or absolute, with its trailing slashes)
+                try:
+                    d4 = Directory.from_disk(path=spelled, path_filter=from_disk.ignore_empty_directories)
+                except (KeyError, ValueError, OSError, TypeError) as e:
+                    ctx.fail(case, f"reading with empty directories ignored raises {type(e).__name__}: {str(e)[:200]}", "ignore-empty-raises:" + type(e).__name__)
+                    d4 = None
                 want4 = fs.expected_ids(fs.prune_empty(spec))[b""][1]
-                if d4.hash != want4:
+                if d4 is not None and d4.hash != want4:
                     ctx.fail(case, "ignoring empty directories does not give the id of the tree without its (recursively) empty directories", "ignore-empty-differs", {"impl": d4.hash.hex(), "want": want4.hex()})
                 # git itself, on the subset it can express
                 if case["git"] or ctx.tier == "thorough":
